@@ -35,3 +35,4 @@ def check(ctx):
     drivers.progress_dispatch(ctx)
     drivers.sweep_boundaries(ctx)
     drivers.dmrg_restart(ctx)
+    conv.entry_raises(ctx, "emu_base.math.krylov_energy_min.krylov_energy_minimization", {"converged", "happy_breakdown"}, "krylov_energy_minimization")
